@@ -119,5 +119,19 @@ pub fn de_all(t: &DTy, bytes: &[u8]) -> Result<DeRes, String> {
         (Err(_), Err(_)) => {} // reader errors are all unexpected-end by construction; kinds not compared here
         _ => return Err(format!("entry-mismatch from_io {:?} vs take_from_bytes {:?}", io, take)),
     }
+    // a byte reader may deliver its data in pieces: one byte at a time, and random short reads
+    for sched in [1u64, 0x5eed] {
+        let io2 = guard(|| {
+            let mut scratch = vec![0u8; bytes.len() + 8];
+            let rd = crate::ops_io::SchedReader { data: bytes.to_vec(), pos: 0, fault: None, rng: crate::prng::Rng::new(sched), whole: false, one: sched == 1 };
+            with_ty(t, || postcard::from_io::<DynVal, _>((rd, &mut scratch[..])).map(|(v, (rd, _))| (v.0, rd.data[rd.pos..].to_vec())).map_err(|e| err_name(&e)))
+        })
+        .map_err(|_| "panic in from_io (short reads)".to_string())?;
+        match (&take, &io2) {
+            (Ok(a), Ok(b)) if a == b => {}
+            (Err(_), Err(_)) => {}
+            _ => return Err(format!("entry-mismatch from_io with short reads {:?} vs take_from_bytes {:?}", io2, take)),
+        }
+    }
     Ok(take)
 }
